@@ -59,8 +59,7 @@ import (
 //	                outcome recorded in the evidence, never a failure.
 const (
 	sigSkipsStart   = "C15/multieventsyncer-skips-start-block"
-	sigGapAfterLow  = "C15/reorg-undetected-lower-head-then-skip-past-synced-plus-one"
-	sigGapAfterFail = "C15/reorg-undetected-failed-step-then-skip-past-synced-plus-one"
+	sigGap          = "C15/reorg-missed-after-lower-head-then-skip"
 )
 
 type c15Step struct {
@@ -230,22 +229,14 @@ func (u *c15Unit) classify(s *c15State, h fakechain.BlockID) string {
 	if hb.Number <= g.Number+1 {
 		return "admitted"
 	}
-	for id := 0; id < 64; id++ {
-		if s.shown&(1<<uint(id)) != 0 && ch.IsAncestorOrSelf(fakechain.BlockID(id), h) {
-			if s.failed&(1<<uint(id)) != 0 {
-				return "gap-after-failed-step"
-			}
-			return "gap-after-lower-head"
-		}
-	}
-	return "excluded-gap"
+	return "gap"
 }
 
 // next computes the successor state from the database after a step.
-func (u *c15Unit) next(s *c15State, h fakechain.BlockID, faulted bool, s2 bool) *c15State {
+func (u *c15Unit) next(s *c15State, h fakechain.BlockID, dump string, faulted bool, s2 bool) *c15State {
 	ch := u.t.chain
 	d := u.env.DB
-	n := &c15State{snap: d.Snapshot(), dump: d.Dump(u.tables()...), ghost: -1, startS2: s.startS2 || s2}
+	n := &c15State{snap: d.Snapshot(), dump: dump, ghost: -1, startS2: s.startS2 || s2}
 	st := syncx.ReadStatus(d, u.t.kind)
 	switch {
 	case !st.Present:
@@ -274,10 +265,23 @@ func (u *c15Unit) next(s *c15State, h fakechain.BlockID, faulted bool, s2 bool) 
 }
 
 func (s *c15State) key() string {
-	return fmt.Sprintf("%s|g=%d|shown=%x|failed=%x", s.dump, s.ghost, s.shown, s.failed)
+	return fmt.Sprintf("%s|g=%d", s.dump, s.ghost)
+}
+
+// refineGap is used when a recorded path is replayed: a head that skips past
+// G+1 on a new branch is admitted by the statement if an earlier head of that
+// branch, not higher than G+1, was shown since the position last changed.
+func (u *c15Unit) refineGap(s *c15State, h fakechain.BlockID) string {
+	for id := 0; id < 64; id++ {
+		if s.shown&(1<<uint(id)) != 0 && u.t.chain.IsAncestorOrSelf(fakechain.BlockID(id), h) {
+			return "gap-after-earlier-head"
+		}
+	}
+	return "excluded-gap"
 }
 
 type c15Outcome struct {
+	dump    string
 	res     syncx.StepResult
 	finding *finding
 	effect  string
@@ -317,7 +321,7 @@ func (u *c15Unit) step(s *c15State, h fakechain.BlockID, f syncx.Fault) c15Outco
 	if res.Commits > 1 {
 		effect += fmt.Sprintf("/%dcommits", res.Commits)
 	}
-	return c15Outcome{res: res, finding: fnd, effect: effect}
+	return c15Outcome{dump: d.Dump(u.tables()...), res: res, finding: fnd, effect: effect}
 }
 
 func (u *c15Unit) headByLabel(l string) fakechain.BlockID {
@@ -329,17 +333,13 @@ func (u *c15Unit) headByLabel(l string) fakechain.BlockID {
 	panic("no block " + l)
 }
 
-// judgeGap maps the oracle's finding on a gap-after-... transition to the
-// signature of that class.
-func judgeGap(cls string, f *finding) *finding {
+// judgeGap maps the oracle's finding on a gap-after-earlier-head transition to
+// the signature of that class.
+func judgeGap(f *finding) *finding {
 	if f == nil || f.sig == sigSkipsStart {
 		return nil
 	}
-	sig := sigGapAfterLow
-	if cls == "gap-after-failed-step" {
-		sig = sigGapAfterFail
-	}
-	return &finding{sig: sig, msg: f.msg + "\n(the fork's first new head was not higher than synced+1, so the statement admits this head sequence; the syncers detect a reorg only when a head at exactly synced+1 is shown and that Sync call gets as far as the rollback. Underlying discrepancy class: " + f.sig + ")"}
+	return &finding{sig: sigGap, msg: f.msg + "\n(the fork's first new head was not higher than synced+1, so the statement admits this head sequence; the syncers detect a reorg only when a head at exactly synced+1 is shown and that Sync call gets as far as the rollback - the same happens when the head at synced+1 was shown but its Sync call failed. Underlying discrepancy class: " + f.sig + ")"}
 }
 
 // replayC15 re-executes a recorded path on a fresh unit and returns what the
@@ -353,6 +353,9 @@ func replayC15(rp c15Replay) *finding {
 	for i, st := range rp.Steps {
 		h := u.headByLabel(st.Head)
 		cls := u.classify(s, h)
+		if cls == "gap" {
+			cls = u.refineGap(s, h)
+		}
 		o := u.step(s, h, st.Fault)
 		where := fmt.Sprintf("step %d of %d (%s, %s): ", i+1, len(rp.Steps), st.Head, cls)
 		switch cls {
@@ -363,17 +366,38 @@ func replayC15(rp c15Replay) *finding {
 					return last
 				}
 			}
-		case "gap-after-lower-head", "gap-after-failed-step":
-			if g := judgeGap(cls, o.finding); g != nil {
+		case "gap-after-earlier-head":
+			if g := judgeGap(o.finding); g != nil {
 				return &finding{sig: g.sig, msg: where + g.msg}
 			}
 			return last
 		default:
 			return last // excluded by the statement: informational only
 		}
-		s = u.next(s, h, o.res.Err != nil || o.res.Crashed, false)
+		s = u.next(s, h, o.dump, o.res.Err != nil || o.res.Crashed, false)
 	}
 	return last
+}
+
+func decodeSteps(path []string) []c15Step {
+	var out []c15Step
+	for _, l := range path {
+		var st c15Step
+		if err := json.Unmarshal([]byte(l), &st); err != nil {
+			panic(err)
+		}
+		out = append(out, st)
+	}
+	return out
+}
+
+func encodeSteps(steps []c15Step) []string {
+	var out []string
+	for _, st := range steps {
+		b, _ := json.Marshal(st)
+		out = append(out, string(b))
+	}
+	return out
 }
 
 type c15Probe struct {
@@ -435,10 +459,24 @@ func c15Worklist(thorough bool) []c15Work {
 				if kind == syncx.Multi {
 					w.maxRange = []uint64{4, 0, 3}[i%3] // 0 = default (one range)
 				}
-				w.faults = thorough || i%8 == 0
 				out = append(out, w)
 				i++
 			}
+		}
+	}
+	// Every unit is first searched without faults; afterwards a subset is searched
+	// again with every single fault at every transition (the expensive part), so
+	// that a time cap cuts the fault enumeration, not the head sequences.
+	every := 16
+	if thorough {
+		every = 5
+	}
+	n := len(out)
+	for i := 0; i < n; i++ {
+		if i%every == 0 {
+			w := out[i]
+			w.faults = true
+			out = append(out, w)
 		}
 	}
 	return out
@@ -480,12 +518,7 @@ func runC15(c *report.Ctx) {
 		report15 := func(f *finding, path []string, last c15Step, note string) {
 			rp := u.rp
 			rp.Note = note
-			for _, l := range path {
-				var st c15Step
-				_ = json.Unmarshal([]byte(l), &st)
-				rp.Steps = append(rp.Steps, st)
-			}
-			rp.Steps = append(rp.Steps, last)
+			rp.Steps = append(decodeSteps(path), last)
 			if !reported[f.sig] {
 				reported[f.sig] = true
 				// the violation must reproduce from scratch, 5 times
@@ -507,6 +540,14 @@ func runC15(c *report.Ctx) {
 			KeepPaths: true,
 		}
 		bfs.Expand = func(s *c15State, depth int, path []string, emit func(string, *c15State)) {
+			ch := u.t.chain
+			type gapCase struct {
+				h fakechain.BlockID
+				o c15Outcome
+			}
+			var gaps []gapCase
+			// heads of a new branch, not higher than G+1, whose Sync call left the database untouched
+			var lowNoop []fakechain.BlockID
 			for _, h := range u.t.heads {
 				cls := u.classify(s, h)
 				step := c15Step{Head: u.t.label[h]}
@@ -535,32 +576,53 @@ func runC15(c *report.Ctx) {
 							continue // do not explore beyond a violating state
 						}
 					}
+					offBranch := s.ghost >= 0 && !ch.IsAncestorOrSelf(s.ghost, h) && !ch.IsAncestorOrSelf(h, s.ghost)
+					if offBranch && o.dump == s.dump {
+						lowNoop = append(lowNoop, h)
+					}
 					lbl, _ := json.Marshal(step)
-					emit(string(lbl), u.next(s, h, false, s2))
+					emit(string(lbl), u.next(s, h, o.dump, false, s2))
 					if w.faults {
 						u.faultSteps(c, s, h, o.res, path, emit, report15)
 					}
-				case "gap-after-lower-head", "gap-after-failed-step":
-					if g := judgeGap(cls, o.finding); g != nil {
-						c.Stats.Class(string(w.kind) + ":" + cls + ":violated")
-						report15(g, path, step, "")
-					} else {
-						c.Stats.Class(string(w.kind) + ":" + cls + ":held")
-					}
-				default: // excluded-gap, excluded-deep: informational probe
+				case "gap":
+					gaps = append(gaps, gapCase{h, o})
+				default: // excluded-deep: informational probe
 					viol := o.finding != nil && o.finding.sig != sigSkipsStart
 					probe(string(w.kind)+":"+cls, viol)
-					if viol && probeSample == nil {
-						rp := u.rp
-						for _, l := range path {
-							var st c15Step
-							_ = json.Unmarshal([]byte(l), &st)
-							rp.Steps = append(rp.Steps, st)
-						}
-						rp.Steps = append(rp.Steps, step)
-						rp.Note = "informational probe (" + cls + "): " + o.finding.sig
-						probeSample = &rp
+				}
+			}
+			// A head that skips past G+1 on a new branch: the statement admits it if an
+			// earlier head of that branch, not higher than G+1, has been shown first.
+			for _, g := range gaps {
+				step := c15Step{Head: u.t.label[g.h]}
+				// without an earlier head of the new branch this is the class the statement
+				// excludes (first new head past synced+1): informational
+				viol := g.o.finding != nil && g.o.finding.sig != sigSkipsStart
+				probe(string(w.kind)+":excluded-gap", viol)
+				if viol && probeSample == nil {
+					rp := u.rp
+					rp.Steps = append(decodeSteps(path), step)
+					rp.Note = "informational probe (first new head past synced+1, excluded by the statement): " + g.o.finding.sig
+					probeSample = &rp
+				}
+				cls, pre := "", []c15Step(nil)
+				for _, l := range lowNoop {
+					if ch.IsAncestorOrSelf(l, g.h) && depth+2 <= maxDepth {
+						cls, pre = "gap-after-earlier-head", []c15Step{{Head: u.t.label[l]}}
+						break
 					}
+				}
+				if cls == "" {
+					continue
+				}
+				// the database after the inserted step equals s, so the outcome of Sync(h) is the one observed
+				p2 := append(append([]string{}, path...), encodeSteps(pre)...)
+				if f := judgeGap(g.o.finding); f != nil {
+					c.Stats.Class(string(w.kind) + ":" + cls + ":violated")
+					report15(f, p2, step, "")
+				} else {
+					c.Stats.Class(string(w.kind) + ":" + cls + ":held")
 				}
 			}
 		}
@@ -589,8 +651,8 @@ func runC15(c *report.Ctx) {
 	if c.Shard == 0 {
 		c.Stats.SetExtra("engine_conformance_tests", engineConformanceTests)
 		c.Stats.SetExtra("max_head_sequence_length", maxDepth)
-		c.Stats.SetExtra("map_order_seam_active", maporder.Ranges > 0)
 	}
+	c.Stats.Count("map_order_seam_ranges", maporder.Ranges)
 	for k, p := range probes {
 		c.Stats.Count("probe:"+k+":held", p.Held)
 		c.Stats.Count("probe:"+k+":violated", p.Violated)
@@ -634,7 +696,8 @@ func (u *c15Unit) faultSteps(c *report.Ctx, s *c15State, h fakechain.BlockID, cl
 				continue
 			}
 		}
+		failed := o.res.Err != nil || o.res.Crashed
 		lbl, _ := json.Marshal(step)
-		emit(string(lbl), u.next(s, h, o.res.Err != nil || o.res.Crashed, s2))
+		emit(string(lbl), u.next(s, h, o.dump, failed, s2))
 	}
 }
